@@ -190,7 +190,10 @@ Definition lex_one_diag (name w rest : str) : bool :=
   end.
 
 Definition guard_int (w rest : str) : bool := negb (shape_hex_e_suffix w rest).
-Definition guard_float (w : str) : bool := negb (shape_hexfloat_empty_part w) && negb (shape_hexfloat_hex_suffix w).
+(* the two hexadecimal-float shapes below were refuted shapes; both are repaired in the source (constant part with an empty
+   fraction or integer part, DECIMAL exponent digits): no guard excludes them any more, the definitions are kept for the
+   positive theorems *)
+Definition guard_float (w : str) : bool := true.
 Definition guard_char (w : str) : bool := negb (shape_ucn w) && negb (shape_long_hex w).
 Definition guard_string (w : str) : bool := negb (shape_ucn w).
 
